@@ -166,7 +166,18 @@ func (n *cnNet) buildTx(spec *cnTxSpec, rng *rand.Rand) ([]byte, error) {
 		fmt.Sscanf(target, "N%d", &idx)
 		v := n.vals[idx]
 		saved := v.rot
-		if cand := rotateKeys(v.rot, spec.Rotate, rng); cand != nil {
+		if strings.HasPrefix(spec.Rotate, "steal:") {
+			// steal:<role>:<j> : the node claims the key that node j currently uses in that role
+			var j int
+			parts := strings.Split(spec.Rotate, ":")
+			if len(parts) == 3 {
+				fmt.Sscanf(parts[2], "N%d", &j)
+				cand := map[string]signature.Signer{"p2p": v.rot["p2p"], "vrf": v.rot["vrf"], "tls": v.rot["tls"]}
+				cand[parts[1]] = n.vals[j].rot[parts[1]]
+				v.rot = cand
+				n.pendingRot[spec] = cand
+			}
+		} else if cand := rotateKeys(v.rot, spec.Rotate, rng); cand != nil {
 			v.rot = cand
 			n.pendingRot[spec] = cand
 		}
